@@ -41,7 +41,12 @@ RenderVerdict(ev) ==
           ELSE IF 2 * AbsI(ev.digits * P10(re - x) - ev.m * P10(ev.e10 - x)) <= P10(ue - x) THEN "ok"
           ELSE "inaccurate"
 
-\* an angle printed with a fixed number of decimals: |printed - true| <= half a unit of the last
-\* decimal (+ 2 units of the 1e-6 bracket the true angle is given in)
-AngleVerdict(ev) == IF 2 * AbsI(ev.digits * P10(6 - ev.ndec) * ev.osgn - ev.a6) <= P10(6 - ev.ndec) + 4 THEN "ok" ELSE "angle_inaccurate"
+\* an angle (printed with some number of decimals, or omitted = printed as 0): within half a unit of the p-th significant digit of the true
+\* angle, but never finer than ev.floor2 / 2 - the resolution of the angle format (half a unit of its fixed decimals, or the angle below
+\* which the format writes no angle at all), given in units of 10^-6 like the true angle a6 (which is a +-2 bracket)
+AngleVerdict(ev) ==
+   LET printed6 == ev.digits * P10(6 - ev.ndec) * ev.osgn
+       ue == NDig(AbsI(ev.a6)) - ev.p                      \* exponent (in units of 10^-6) of the p-th significant digit of the angle
+       allow2 == IF ue >= 0 /\ P10(ue) > ev.floor2 THEN P10(ue) ELSE ev.floor2
+   IN IF 2 * AbsI(printed6 - ev.a6) <= allow2 + 4 THEN "ok" ELSE "angle_inaccurate"
 =============================================================================
